@@ -591,9 +591,29 @@ fn shape(q: &str) -> &'static str {
         "long-input"
     } else if max_run(q, |c| c == '-' || c == '!' || c == '^' || c == '+') >= 50 {
         "prefix-chain"
+    } else if var_length_match_with_write(q) {
+        // a statement whose MATCH contains a variable-length hop and whose write clause adds/removes what that hop walks
+        "var-length-match-with-write"
     } else {
         "short-input"
     }
+}
+
+/// `[...*...]` somewhere in the text together with a write clause (CREATE / INSERT / MERGE / SET / DELETE).
+fn var_length_match_with_write(q: &str) -> bool {
+    let up = q.to_uppercase();
+    let has_write = ["CREATE", "INSERT", "MERGE", " SET ", "DELETE"].iter().any(|k| up.contains(k));
+    let mut in_br = false;
+    let mut star = false;
+    for c in q.chars() {
+        match c {
+            '[' => in_br = true,
+            ']' => in_br = false,
+            '*' if in_br => star = true,
+            _ => {}
+        }
+    }
+    has_write && star
 }
 
 fn judge_line(case: &ExecCase, line: &str) -> CaseResult {
